@@ -93,6 +93,22 @@ def _names(doc, path="$", out=None):
 
 
 def run_case(i, rng, tier):
+    state = rng.getstate()
+    res = _run(i, rng, tier, False)
+    if res["failures"] and res.pop("bool_categories", False):
+        # known-finding candidate: a live Categorize keys boolean categories by True/False, its reload by "True"/"False",
+        # so merging one with the other keeps both keys and the document collapses them.  Attribute the failures to it
+        # only if the very same case with the boolean categories given as their strings passes (neutraliser).
+        rng.setstate(state)
+        twin = _run(i, rng, tier, True)
+        if not twin["failures"]:
+            for f in res["failures"]:
+                f["key"] = "Categorize.bool-keys-vs-reloaded-string-keys"
+    res.pop("bool_categories", None)
+    return res
+
+
+def _run(i, rng, tier, neutralise):
     hg = env.hg()
     from histogrammar.defs import Factory
 
@@ -104,7 +120,10 @@ def run_case(i, rng, tier):
         label, sp = C.pick_spec(10**9, rng, tier, OPTS, "c04")
         empty = rng.random() < 0.15
     n = 0 if empty else rng.randint(1, 10)
-    stream = S.gen_stream(rng, sp, n)
+    stream = S.gen_stream(rng, sp, n, {"cat_bool": True})
+    has_bool = "Categorize" in S.kinds_in(sp) and any(isinstance(r["c"], bool) for r, _ in stream)
+    if neutralise:
+        stream = [(dict(r, c=str(r["c"]) if isinstance(r["c"], bool) else r["c"]), w) for r, w in stream]
     if rng.random() < 0.15:
         # rows taken from numpy records carry numpy scalars (int64, float64; float32 would legitimately lower the precision of running means): accepted by fill, so the
         # states they lead to must serialise too
@@ -121,7 +140,7 @@ def run_case(i, rng, tier):
         numpy_rows = False
     kind = "fill" if empty else rng.choice(["fill", "fill", "add", "scale", "copy", "merge2"])
     failures = []
-    counters = {"state:" + kind: 1, "empty_state" if empty else "filled_state": 1, "numpy_scalar_rows": int(numpy_rows)}
+    counters = {"state:" + kind: 1, "empty_state" if empty else "filled_state": 1, "numpy_scalar_rows": int(numpy_rows), "boolean_categories": int(has_bool)}
     sets = {"kinds": S.kinds_in(sp), "strata_" + ("empty" if empty else "filled"): {label}}
     wit = {"tree": S.describe(sp), "spec": sp, "stream": C.stream_json(stream), "state": kind}
 
@@ -145,7 +164,7 @@ def run_case(i, rng, tier):
         dtext = json.dumps(doc, allow_nan=False)
     except Exception as e:  # noqa: BLE001
         bad("toJson / json.dumps(allow_nan=False) failed: %s: %s" % (type(e).__name__, str(e)[:200]))
-        return {"failures": failures, "counters": counters, "sets": sets, "digest": C.digest(sp, stream, kind), "nontrivial": False}
+        return {"failures": failures, "counters": counters, "sets": sets, "digest": C.digest(sp, stream, kind), "nontrivial": False, "bool_categories": has_bool}
     doc = json.loads(dtext)
     canon = _txt(doc)
 
@@ -178,7 +197,7 @@ def run_case(i, rng, tier):
             continue
         reloads[name] = r
     if len(reloads) < 3:
-        return {"failures": failures, "counters": counters, "sets": sets, "digest": C.digest(sp, stream, kind), "nontrivial": False}
+        return {"failures": failures, "counters": counters, "sets": sets, "digest": C.digest(sp, stream, kind), "nontrivial": False, "bool_categories": has_bool}
     r = reloads["dict"]
 
     # names survive at every level (follows from text equality; counted as evidence)
@@ -245,6 +264,7 @@ def run_case(i, rng, tier):
         "counters": counters,
         "sets": sets,
         "sample": C.case_sample(label, sp, stream, state=kind, document=doc if len(dtext) < 600 else dtext[:600] + "..."),
+        "bool_categories": has_bool,
     }
 
 
